@@ -413,10 +413,58 @@ func TopicCases() []*Case {
 	return out
 }
 
+// PairFieldCases (thorough): every ordered pair of field types x containers in one object,
+// the second field with each presence form.
+func PairFieldCases() []*Case {
+	var out []*Case
+	tvs := typeVariants()
+	conts := []string{"plain", "array", "map"}
+	wrap := func(t *Type, cont string) *Type {
+		switch cont {
+		case "array":
+			return ArrayOf(t)
+		case "map":
+			return MapOf(t)
+		}
+		return t
+	}
+	for _, a := range tvs {
+		for _, b := range tvs {
+			for _, ca := range conts {
+				for _, cb := range conts {
+					f := file("t/v1", "a")
+					ta := a.Make(f)
+					nBefore := len(f.Decls)
+					tb := b.Make(f)
+					// the same supporting declaration twice would be a duplicate name: share it
+					if a.Name == b.Name && len(f.Decls) > nBefore {
+						f.Decls = f.Decls[:nBefore]
+						tb = ta
+					}
+					pr := presences[(len(out))%len(presences)]
+					fb := &Field{Name: "second", T: wrap(tb, cb), Required: pr.req, Optional: pr.opt && cb == "plain", UseMark: pr.mark}
+					fa := &Field{Name: "fooBar", T: wrap(ta, ca)}
+					f.Decls = append([]any{setFile(obj("Foo", fa, fb), f)}, f.Decls...)
+					out = append(out, &Case{
+						ID:     fmt.Sprintf("pair:%s:%s:%s:%s", a.Name, ca, b.Name, cb),
+						Family: "field-pairs",
+						Coord:  fmt.Sprintf("field-pairs|types=%s+%s", a.Name, b.Name),
+						P:      &Program{Files: []*File{f}},
+					})
+				}
+			}
+		}
+	}
+	return out
+}
+
 // AllContractCases: the families whose expected contract the reference compiler knows.
 func AllContractCases(thorough bool) []*Case {
 	var out []*Case
 	out = append(out, SingleFieldCases()...)
+	if thorough {
+		out = append(out, PairFieldCases()...)
+	}
 	out = append(out, NumberingCases()...)
 	out = append(out, NestingCases()...)
 	out = append(out, EnumCases()...)
